@@ -200,8 +200,17 @@ def run(ck, m):
             ck.ob("R3", n, ok and cmp_ok and bound_once,
                   "terminal_size_cached must store, under the lock, the pair (value, terminal size) with the very terminal size it compared",
                   stmt="ts_wrapper: store (value, ts)")
+            if ok:
+                src_ = norm(trace(tw, n.value.elts[1], use=n))
+                ck.ob("R3", n, src_ == "get_terminal_size()", f"the stamp of terminal_size_cached must be the library's `get_terminal_size()` (the size of the *active* terminal); it is `{src_[:60]}` - "
+                      "another source (shutil's, which looks at stdout / COLUMNS / LINES) does not change when the active terminal is resized, so the memo is served for ever", stmt="ts_wrapper: stamp = get_terminal_size()")
     ck.expect(n_ts_store >= 1, "terminal_size_cached_wrapper: the statement that stores the computed value not recognised")
 
+    for rel_, q_, fn_ in m.functions():
+        for c_ in body_walk(fn_):
+            if isinstance(c_, ast.Call) and isinstance(c_.func, ast.Name) and c_.func.id == "_get_terminal_size" and rel_ == U:
+                ck.ob("R3", enclosing_stmt(c_), q_.split(".")[0] == "get_terminal_size", f"{q_} calls shutil's get_terminal_size (`_get_terminal_size`) directly: only utils.get_terminal_size may - every other "
+                      "reader needs the size of the active terminal", stmt=f"{q_}: no direct use of shutil.get_terminal_size")
     # ---- R4 -----------------------------------------------------------------------------
     gcs = m.get(U, "get_cell_size")
     tsb = [st for t, st in stores_in(ast.Module(body=gcs.body, type_ignores=[])) if isinstance(t, ast.Name) and t.id == "terminal_size"]
